@@ -123,25 +123,23 @@ Definition vcase_model_ok (c : vcase) : bool :=
 Definition vcase_spec_ok (c : vcase) : bool := vulns_result_spec (vc_vulns c) (vc_all c) (vc_obs c).
 
 (* ------------------------------------------------------------------ ResolveGraphVulns / MatchVuln *)
-(* the sentence in the options' documentation: IgnoreVulns = "IDs to ignore", ExplicitVulns = "if
-   set, only consider these IDs and ignore all others" (IDs and aliases both count for ignoring) *)
-Definition filter_spec (o : ropts) (all : list fvuln) (v : fvuln) : bool :=
-  let hidden := o_ignore o ++
-    match o_explicit o with [] => [] | e => filter (fun i => negb (memN i e)) (map f_id all) end in
-  negb (memN (f_id v) hidden) && forallb (fun a => negb (memN a hidden)) (f_aliases v) &&
+(* the sentence in the options' documentation: IgnoreVulns = "IDs to ignore" (IDs and aliases both
+   count), ExplicitVulns = "if set, only consider these IDs and ignore all others" *)
+Definition filter_spec (o : ropts) (v : fvuln) : bool :=
+  negb (memN (f_id v) (o_ignore o)) && forallb (fun a => negb (memN a (o_ignore o))) (f_aliases v) &&
+  (match o_explicit o with [] => true | _ => false end || memN (f_id v) (o_explicit o)) &&
   (o_dev_deps o || negb (f_dev_only v)) && f_sev_ok v && f_depth_ok v.
 Record fcase := { fc_opts : ropts; fc_all : list fvuln; fc_ignore_after : list N; fc_kept : list N }.
 Definition fcase_model_ok (c : fcase) : bool :=
   let (o', kept) := resolve_graph_vulns (fc_opts c) (fc_all c) in
   list_eqb N.eqb (o_ignore o') (fc_ignore_after c) && list_eqb N.eqb (map f_id kept) (fc_kept c).
 Definition fcase_spec_ok (c : fcase) : bool :=
-  list_eqb N.eqb (map f_id (filter (filter_spec (fc_opts c) (fc_all c)) (fc_all c))) (fc_kept c).
+  list_eqb N.eqb (map f_id (filter (filter_spec (fc_opts c)) (fc_all c))) (fc_kept c).
 
 (* ------------------------------------------------------------------ the two-run case *)
 Record cand := { cd_reqs : list req; cd_all : list fvuln; cd_obs : patch }.
 Record tcase := {
   tc_opts : ropts; tc_max : Z; tc_ni : bool; tc_mgmt : rtype;
-  tc_name_safe : bool;               (* no package name needs escaping in a gjson path (C13's domain) *)
   tc_ok : bool;                      (* all three runs returned without error *)
   tc_reqs0 : list req; tc_all0 : list fvuln;       (* first analysis (trace) *)
   tc_all_patches : list patch;                     (* the strategy's candidate patches (trace) *)
@@ -164,11 +162,6 @@ Definition tcase_model_ok (c : tcase) : bool :=
    (* the model's prediction of the fresh analysis *)
    list_eqb N.eqb (map f_id (snd (resolve_graph_vulns (tc_opts c) (tc_all2 c)))) (tc_ids2 c) &&
    list_eqb N.eqb (tc_ids2 c) (tc_ids2b c)).
-
-(* the domain on which the property sentence is claimed (see reanalysis_matches_report_on_D and
-   the known findings): explicit-list consistency, and names inside C13's writer domain *)
-Definition tcase_in_D (c : tcase) : bool :=
-  tc_name_safe c && explicit_consistent (tc_opts c) (tc_all0 c) (tc_all2 c).
 
 Definition find_rvuln (i : N) (l : list rvuln) : option rvuln := find (fun e => N.eqb (o_id e) i) l.
 
@@ -203,7 +196,4 @@ Definition cands_reproduce (c : tcase) : bool :=
 
 Definition tcase_spec_ok (c : tcase) : bool :=
   negb (tc_ok c) ||
-  (no_patch_ok c && unactionable_ok c && cands_reproduce c &&
-   (negb (tcase_in_D c) || single_patch_ok c)).
-(* the sentence without the domain restriction: used to confirm known findings *)
-Definition tcase_sentence_ok (c : tcase) : bool := negb (tc_ok c) || single_patch_ok c.
+  (no_patch_ok c && unactionable_ok c && cands_reproduce c && single_patch_ok c).
